@@ -771,6 +771,7 @@ func c10R3StorePushTag(c *Ctx, R3 string, r *c08Roles) {
 				stored = append(stored, ne...)
 			}
 		}
+		stored = append(stored, c09StepTableSuccess(push, func(call ssa.CallInstruction) bool { return CalleeName(call) == "(*~/content/oci.Storage).Push" })...)
 		ts := tagSites(push)
 		if len(ts) == 0 || len(stored) == 0 {
 			c.LostAnchor(R3, pn+": storage.Push error test / tag call")
